@@ -1,2 +1,277 @@
 // In-crate child probe of acmed/src/storage.rs (feature breard_r_acmed_verif): private access to the parent module.
+// op write_history (C02, C13, C10.4): runs a history of writes through the REAL `write_file` /
+// `set_account_data` / `set_keypair` / `write_certificate` / `Account::save` under a chosen umask and
+// reports, after every call, the result, the `stat` and the bytes of the file.
 #![allow(dead_code, unused_imports)]
+use super::*;
+use serde_json::{json, Value};
+use std::os::unix::fs::{MetadataExt, PermissionsExt};
+
+fn hex(b: &[u8]) -> String {
+	let mut s = String::with_capacity(b.len() * 2);
+	for x in b {
+		s.push_str(&format!("{x:02x}"));
+	}
+	s
+}
+
+fn unhex(s: &str) -> Vec<u8> {
+	let b = s.as_bytes();
+	let mut out = Vec::with_capacity(b.len() / 2);
+	let d = |c: u8| -> u8 {
+		match c {
+			b'0'..=b'9' => c - b'0',
+			b'a'..=b'f' => c - b'a' + 10,
+			b'A'..=b'F' => c - b'A' + 10,
+			_ => 0,
+		}
+	};
+	let mut i = 0;
+	while i + 1 < b.len() {
+		out.push(d(b[i]) * 16 + d(b[i + 1]));
+		i += 2;
+	}
+	out
+}
+
+/// Hooks from JSON (same shape as the `[[hook]]` tables `py/flow.py::recorder_hook` builds).
+pub fn hooks_of(v: &Value) -> Result<Vec<Hook>, String> {
+	let mut out = vec![];
+	for h in v.as_array().cloned().unwrap_or_default() {
+		let mut types = std::collections::HashSet::new();
+		for t in h["type"].as_array().cloned().unwrap_or_default() {
+			let ht: HookType = serde_json::from_value(t.clone()).map_err(|e| format!("hook type {t}: {e}"))?;
+			types.insert(ht);
+		}
+		out.push(Hook {
+			name: h["name"].as_str().unwrap_or("hook").to_string(),
+			hook_type: types,
+			cmd: h["cmd"].as_str().unwrap_or("true").to_string(),
+			args: h["args"].as_array().map(|a| {
+				a.iter()
+					.map(|x| x.as_str().unwrap_or("").to_string())
+					.collect()
+			}),
+			stdin: hooks::HookStdin::None,
+			stdout: None,
+			stderr: None,
+			allow_failure: h["allow_failure"].as_bool().unwrap_or(crate::DEFAULT_HOOK_ALLOW_FAILURE),
+		});
+	}
+	Ok(out)
+}
+
+fn stat_of(p: &Path) -> Value {
+	match std::fs::symlink_metadata(p) {
+		Ok(m) => json!({
+			"mode": m.mode() & 0o7777,
+			"uid": m.uid(),
+			"gid": m.gid(),
+			"len": m.len(),
+			"is_file": m.file_type().is_file(),
+			"mtime_ns": (m.mtime() as i128 * 1_000_000_000 + m.mtime_nsec() as i128).to_string(),
+			"ctime_ns": (m.ctime() as i128 * 1_000_000_000 + m.ctime_nsec() as i128).to_string(),
+		}),
+		Err(_) => Value::Null,
+	}
+}
+
+fn content_of(p: &Path) -> Value {
+	match std::fs::read(p) {
+		Ok(b) => Value::String(hex(&b)),
+		Err(_) => Value::Null,
+	}
+}
+
+/// State the harness wants the file to be in before a step (made with std::fs, not with the code
+/// under test): absent, or given bytes / mode / owner.
+fn prepare(p: &Path, pre: &Value) -> Result<(), String> {
+	if pre.is_null() {
+		return Ok(());
+	}
+	if pre["absent"].as_bool().unwrap_or(false) {
+		let _ = std::fs::remove_file(p);
+		return Ok(());
+	}
+	let data = unhex(pre["content_hex"].as_str().unwrap_or(""));
+	let _ = std::fs::remove_file(p);
+	std::fs::write(p, &data).map_err(|e| format!("prepare write: {e}"))?;
+	let uid = pre["uid"].as_u64().map(|u| nix::unistd::Uid::from_raw(u as u32));
+	let gid = pre["gid"].as_u64().map(|g| nix::unistd::Gid::from_raw(g as u32));
+	nix::unistd::chown(p, uid, gid).map_err(|e| format!("prepare chown: {e}"))?;
+	let mode = pre["mode"].as_u64().unwrap_or(0o644) as u32;
+	std::fs::set_permissions(p, std::fs::Permissions::from_mode(mode)).map_err(|e| format!("prepare chmod: {e}"))?;
+	Ok(())
+}
+
+fn file_type_of(s: &str) -> FileType {
+	match s {
+		"account" | "account_save" => FileType::Account,
+		"key" => FileType::PrivateKey,
+		_ => FileType::Certificate,
+	}
+}
+
+struct UmaskGuard(nix::sys::stat::Mode);
+impl Drop for UmaskGuard {
+	fn drop(&mut self) {
+		nix::sys::stat::umask(self.0);
+	}
+}
+
+fn cap_fsetid() -> bool {
+	// CAP_FSETID = 4 in the effective set
+	if let Ok(s) = std::fs::read_to_string("/proc/self/status") {
+		for l in s.lines() {
+			if let Some(v) = l.strip_prefix("CapEff:") {
+				if let Ok(n) = u64::from_str_radix(v.trim(), 16) {
+					return n & (1 << 4) != 0;
+				}
+			}
+		}
+	}
+	nix::unistd::geteuid().is_root()
+}
+
+/// A real `Account` (through `Account::load` on an empty directory ⇒ a fresh account with a fresh key)
+/// shaped as the step asks: contacts, endpoints with URLs and hashes, past keys.
+async fn make_account(step: &Value, ref_fm: &FileManager) -> Result<crate::account::Account, String> {
+	let contacts: Vec<(String, String)> = step["contacts"]
+		.as_array()
+		.cloned()
+		.unwrap_or_default()
+		.iter()
+		.map(|c| (c[0].as_str().unwrap_or("mailto").to_string(), c[1].as_str().unwrap_or("").to_string()))
+		.collect();
+	let mut a = crate::account::Account::load(ref_fm, &ref_fm.account_name, &contacts, &None, &None, &None)
+		.await
+		.map_err(|e| e.message)?;
+	for e in step["endpoints"].as_array().cloned().unwrap_or_default() {
+		let n = e[0].as_str().unwrap_or("ep");
+		a.add_endpoint_name(n);
+		a.set_account_url(n, e[1].as_str().unwrap_or("")).map_err(|e| e.message)?;
+		a.set_orders_url(n, e[2].as_str().unwrap_or("")).map_err(|e| e.message)?;
+		a.update_key_hash(n).map_err(|e| e.message)?;
+		a.update_contacts_hash(n).map_err(|e| e.message)?;
+	}
+	for _ in 0..step["past_keys"].as_u64().unwrap_or(0) {
+		let kt = crate::DEFAULT_ACCOUNT_KEY_TYPE;
+		a.past_keys.push(crate::account::AccountKey {
+			creation_date: std::time::SystemTime::now(),
+			key: acme_common::crypto::gen_keypair(kt).map_err(|e| e.message)?,
+			signature_algorithm: kt.get_default_signature_alg(),
+		});
+	}
+	Ok(a)
+}
+
+async fn one_step(root: &Path, idx: usize, step: &Value) -> Value {
+	let kind = step["ftype"].as_str().unwrap_or("cert");
+	let mut fm = crate::certificate::verif::file_manager(&step["fm"]);
+	fm.hooks = match hooks_of(&step["hooks"]) {
+		Ok(h) => h,
+		Err(e) => return json!({"bad_input": e}),
+	};
+	let ft = file_type_of(kind);
+	let (dir, file_name, path) = match get_file_full_path(&fm, ft.clone()) {
+		Ok(p) => p,
+		Err(e) => return json!({"bad_input": format!("path: {}", e.message)}),
+	};
+	if let Err(e) = prepare(&path, &step["pre"]) {
+		return json!({"bad_input": e});
+	}
+	// what the caller hands to the storage layer
+	let mut data: Vec<u8> = unhex(step["data_hex"].as_str().unwrap_or(""));
+	let mut key: Option<KeyPair> = None;
+	let mut account: Option<crate::account::Account> = None;
+	let raw = step["via"].as_str() == Some("raw");
+	if kind == "key" && !raw {
+		match KeyPair::from_pem(step["pem"].as_str().unwrap_or("").as_bytes()) {
+			Ok(k) => {
+				data = match k.private_key_to_pem() {
+					Ok(d) => d,
+					Err(e) => return json!({"bad_input": format!("pem out: {}", e.message)}),
+				};
+				key = Some(k);
+			}
+			Err(e) => return json!({"bad_input": format!("pem in: {}", e.message)}),
+		}
+	}
+	if kind == "account_save" {
+		// reference bytes: the same `Account` value saved by the same code into a fresh directory
+		// (no previous file ⇒ no residue possible); then the very same value is saved on the target
+		let ref_dir = root.join(format!("ref{idx}"));
+		let _ = std::fs::create_dir_all(&ref_dir);
+		let mut ref_fm = fm.clone();
+		ref_fm.hooks = vec![];
+		ref_fm.account_directory = ref_dir.display().to_string();
+		let mut a = match make_account(step, &ref_fm).await {
+			Ok(a) => a,
+			Err(e) => return json!({"bad_input": format!("account: {e}")}),
+		};
+		a.file_manager = ref_fm.clone();
+		if let Err(e) = a.save().await {
+			return json!({"bad_input": format!("reference save: {}", e.message)});
+		}
+		data = match get_file_full_path(&ref_fm, FileType::Account) {
+			Ok((_, _, p)) => std::fs::read(p).unwrap_or_default(),
+			Err(e) => return json!({"bad_input": e.message}),
+		};
+		a.file_manager = fm.clone();
+		account = Some(a);
+	}
+	let before = stat_of(&path);
+	let before_content = content_of(&path);
+	let res = if raw {
+		write_file(&fm, ft.clone(), &data).await
+	} else {
+		match kind {
+			"account" => set_account_data(&fm, &data).await,
+			"account_save" => account.as_ref().unwrap().save().await,
+			"key" => set_keypair(&fm, key.as_ref().unwrap()).await,
+			_ => write_certificate(&fm, &data).await,
+		}
+	};
+	// read back at once: the call has returned, the bytes must be there
+	let after = stat_of(&path);
+	let content = content_of(&path);
+	json!({
+		"path": path.display().to_string(),
+		"file_name": file_name,
+		"file_directory": dir,
+		"before": before,
+		"before_content_hex": before_content,
+		"result": match res { Ok(()) => json!("ok"), Err(e) => json!({"err": e.message}) },
+		"after": after,
+		"content_hex": content,
+		"data_hex": hex(&data),
+	})
+}
+
+/// op write_history
+pub async fn write_history(input: &Value) -> Value {
+	let root = PathBuf::from(input["root"].as_str().unwrap_or(""));
+	if root.as_os_str().is_empty() || !root.is_absolute() {
+		return json!({"bad_input": "root must be an absolute scratch directory"});
+	}
+	let _ = std::fs::create_dir_all(&root);
+	for d in input["dirs"].as_array().cloned().unwrap_or_default() {
+		if let Some(d) = d.as_str() {
+			let _ = std::fs::create_dir_all(d);
+		}
+	}
+	let um = input["umask"].as_u64().unwrap_or(0o022) as u32;
+	let old = nix::sys::stat::umask(nix::sys::stat::Mode::from_bits_truncate(um));
+	let _guard = UmaskGuard(old);
+	let mut steps = vec![];
+	for (i, s) in input["steps"].as_array().cloned().unwrap_or_default().iter().enumerate() {
+		steps.push(one_step(&root, i, s).await);
+	}
+	json!({
+		"steps": steps,
+		"umask": um,
+		"euid": nix::unistd::geteuid().as_raw(),
+		"egid": nix::unistd::getegid().as_raw(),
+		"fsetid": cap_fsetid(),
+	})
+}
